@@ -555,6 +555,11 @@ func init() {
 			return "", err
 		}
 		sb.WriteString(r9)
+		r10, err := c04Round10(repo)
+		if err != nil {
+			return "", err
+		}
+		sb.WriteString(r10)
 		return sb.String(), nil
 	}})
 }
